@@ -146,7 +146,8 @@ theorem pp_result (b : Bool) (c : Cfg) (s s' : St) (len st : Nat) (rd : ReadOut)
                         simp [hk, completed, hb.2.2.2.2.2.2, hk2]
                   · simp at h
 
-def CertEq (s s' : St) : Prop := s'.remoteCertSet = s.remoteCertSet ∧ s'.remoteCert = s.remoteCert
+def CertEq (s s' : St) : Prop :=
+  s'.remoteCertSet = s.remoteCertSet ∧ (s'.remoteCert, s'.remoteKey) = (s.remoteCert, s.remoteKey)
 
 theorem CertStep.then_eq {s s1 s2 : St} {ps : Bytes} {co : CertOut} (h : CertStep s s1 ps co) (e : CertEq s1 s2) :
     CertStep s s2 ps co := by
@@ -165,7 +166,8 @@ accepted by the verifier. -/
 theorem pp_certStep (b : Bool) (c : Cfg) (s : St) (len st : Nat) (rd : ReadOut) (co : CertOut) (now : Nat)
     (wr : WriteOut) :
     CertEq s (processPacketG b c s len st rd co now wr).1 ∨
-    (∃ cert, accepts rd co cert = true ∧ (processPacketG b c s len st rd co now wr).1.remoteCert = some cert) := by
+    (∃ cert ps, accepts rd co cert = true ∧ readStatic rd = some ps ∧
+      ((processPacketG b c s len st rd co now wr).1.remoteCert, (processPacketG b c s len st rd co now wr).1.remoteKey) = (some cert, ps)) := by
   unfold processPacketG
   split; · left; simp [CertEq]
   split; · left; simp [CertEq]
@@ -178,11 +180,12 @@ theorem pp_certStep (b : Bool) (c : Cfg) (s : St) (len st : Nat) (rd : ReadOut) 
     have hstep := processPayload_certStep c { s with msgIdx := s.msgIdx + 1 } msg
       (peerMsgFlags c { s with msgIdx := s.msgIdx + 1 }) ps co
     have conv : ∀ s' : St, CertStep { s with msgIdx := s.msgIdx + 1 } s' ps co →
-        CertEq s s' ∨ (∃ cert, accepts (.ok msg k1 k2 ps) co cert = true ∧ s'.remoteCert = some cert) := by
+        CertEq s s' ∨ (∃ cert ps', accepts (.ok msg k1 k2 ps) co cert = true ∧ readStatic (.ok msg k1 k2 ps) = some ps' ∧
+          (s'.remoteCert, s'.remoteKey) = (some cert, ps')) := by
       intro s' h
       rcases h with ⟨a, b⟩ | ⟨pub, ver, cert, h1, h2, h3, h4⟩
       · left; exact ⟨a, b⟩
-      · right; exact ⟨cert, by simp [accepts, h1, h2, h3], h4⟩
+      · right; exact ⟨cert, ps, by simp [accepts, h1, h2, h3], rfl, h4⟩
     split
     · rename_i s1 e1 hpp
       rw [hpp] at hstep; exact conv _ hstep
